@@ -260,6 +260,19 @@ Section Top.
     unfold claimsOf at 1. rewrite map_length. exact E2.
   Qed.
 
+  Lemma prove_nonempty : forall t idxs, idxs <> [] ->
+    prove t idxs =
+    if (t_n t =? 0)%N then inr PErrZeroCommitment
+    else if existsb (fun i => (t_n t <=? i)%N) idxs then inr PErrPosOutOfBound
+    else
+      match (if t_vc t then map_opt' (fun i => vcIndex i (depthOf t)) idxs else Some idxs) with
+      | None => inr PErrPosOutOfBound
+      | Some idxs' =>
+          let '(plf, hints) := proveLoop (t_levels t) (dedup (sortN idxs')) in
+          if (length plf =? 1)%nat then inl (mkProof hints (depthOf t)) else inr PErrInternal
+      end.
+  Proof. intros t [|i l] H; [contradiction | reflexivity]. Qed.
+
   Theorem complete_plain : forall arr idxs elems,
     idxs <> [] -> (forall i, In i idxs -> (N.to_nat i < length arr)%nat) ->
     (N.of_nat (length arr) <= 2 ^ 63)%N ->
@@ -295,19 +308,19 @@ Section Top.
       rewrite (nth_indep _ [] (hleaf e)) by (rewrite map_length; apply Hrange; assumption).
       rewrite map_nth. f_equal. apply nth_error_nth. assumption. }
     pose proof (chain_size_le _ Hc) as Hsz. pose proof (chain_depth_le _ Hc 63%N) as Hd.
-    rewrite Hhd in Hsz, Hd. unfold leaves in Hsz, Hd. rewrite map_length in Hsz, Hd. specialize (Hd Hbig).
+    assert (Hll : length leaves = length arr) by apply map_length.
+    rewrite Hhd, Hll in Hsz, Hd. specialize (Hd Hbig).
     set (d := N.of_nat (length (levelsOf leaves) - 1)) in *.
     assert (Hdepth : forall p, In p P -> (p < shl1 d)%N).
     { intros p Hp. apply HPin, Hrange in Hp. unfold shl1. destruct (N.ltb_spec d 64); lia. }
     destruct (verify_complete_core leaves elems P d true Hlne Hlen Hene Hnd HS Hmem Hleaf Hdepth) as [E1 E2].
     exists (mkProof (snd (proveLoop (levelsOf leaves) P)) d). split.
-    - unfold prove, MerkleArray.build. cbn [t_n t_vc t_levels]. fold leaves.
-      destruct idxs as [|i0 idxs0] eqn:Ei; [contradiction|]. rewrite <- Ei in *.
+    - rewrite prove_nonempty by assumption. unfold MerkleArray.build. cbn [t_n t_vc t_levels]. fold leaves.
       destruct (N.eqb_spec (N.of_nat (length arr)) 0); [destruct arr; [contradiction | cbn in *; lia]|].
       assert (Hex : existsb (fun i => (N.of_nat (length arr) <=? i)%N) idxs = false).
       { apply not_true_is_false. intros Hex. apply existsb_exists in Hex. destruct Hex as (i & Hi & Hle).
         specialize (Hrange i Hi). apply N.leb_le in Hle. lia. }
-      rewrite Hex. fold P.
+      rewrite Hex. fold P. unfold depthOf. cbn [t_levels]. fold d.
       destruct (proveLoop (levelsOf leaves) P) as [plf hints] eqn:Ep. cbn [fst snd] in *.
       rewrite E1. cbn [length Nat.eqb]. reflexivity.
     - unfold MerkleArray.build. fold leaves.
@@ -353,8 +366,7 @@ Section Top.
     pose proof (chain_size_le _ Hc) as Hsz. pose proof (chain_depth_le _ Hc 62%N) as Hd.
     rewrite Hhd, map_length in Hsz, Hd. specialize (Hd Hbig).
     assert (Ed : d = N.of_nat (length (levelsOf (map hleaf arr)) - 1)).
-    { unfold prove, MerkleArray.build in Hp. cbn [t_n t_vc t_levels] in Hp.
-      destruct idxs; [contradiction|].
+    { rewrite prove_nonempty in Hp by assumption. unfold MerkleArray.build in Hp. cbn [t_n t_vc t_levels] in Hp.
       destruct (_ =? 0)%N; [discriminate|]. destruct (existsb _ _); [discriminate|].
       destruct (proveLoop _ _) as [plf hints]. destruct (length plf =? 1)%nat; [|discriminate].
       inversion Hp. reflexivity. }
